@@ -58,6 +58,7 @@ from tealer.teal.instructions.asset_holding_field import AssetHoldingField
 from tealer.teal.instructions.asset_params_field import AssetParamsField
 from tealer.teal.instructions.app_params_field import AppParamsField
 from tealer.teal.instructions.acct_params_field import AcctParamsField
+from tealer.teal.global_field import GlobalField
 from tealer.teal.teal import Teal
 from tealer.utils.arc4_abi import get_method_selector
 from tealer.utils.teal_enums import ExecutionMode
@@ -390,6 +391,7 @@ def _verify_version(ins_list: List[Instruction], program_version: int) -> bool:
                     AssetParamsField,
                     AppParamsField,
                     AcctParamsField,
+                    GlobalField,
                 ),
             ):
                 if program_version < field.version:
